@@ -1,11 +1,18 @@
 (* Property C12: printed values read back as the same value.
-   PARTIAL: the theorem covers the string-content codec (reprEscape / reprStr vs
-   parseArraiStringFragment), i.e. string values and quoted attribute names, for
-   every rune string; both sides are re-checked against tables regenerated from
-   the running printer and parser.  Number formatting (strconv), the grammar
-   engine, and the printers of tuples, sets, arrays, dicts and relations are
-   covered by the implementation-side round-trip oracle v -> repr -> eval -> v'. *)
+   PARTIAL.  Two theorems:
+   (1) the string-content codec (reprEscape / reprStr vs parseArraiStringFragment), i.e. the
+       text of string values and quoted attribute names, for every rune string; both sides are
+       re-checked against tables regenerated from the running printer and parser;
+   (2) the whole value printer (Sys/Printer.v, rel/value_repr.go and the Format methods) against
+       the literal reader (Sys/Reader.v) at the level of tokens: numbers, tuples with identifier
+       and quoted names, {}, true, generic and union sets, dicts and relations, nested in any way,
+       for EVERY order in which the members are enumerated.  Missing from (2): values containing a
+       string, byte array or array (the list lemmas for array cells are proved, the three cases
+       of the main induction are not), and the lexer (characters to tokens).
+   The printer model as a whole (sequences included) is compared with fu.Repr byte for byte, and
+   the reader model with syntax.EvaluateExpr, on every run (Check/C12Check.v). *)
 From Arrai Require Import Base.Val Sys.Escape Gen.Escapes Proofs.EscapeP.
+From Arrai Require Import Sys.Printer Sys.Reader Proofs.PrintReadP.
 
 Theorem C12_string_contents_roundtrip :
   forall delim s, delim = 39 \/ delim = 34 -> Forall (fun c => 0 <= c) s ->
@@ -28,3 +35,34 @@ Print Assumptions C12_parser_matches_code.
 
 Example C12_probe : decode (repr_str [97; 1; 98; 39; 92; 10]) = Some [97; 1; 98; 39; 92; 10].
 Proof. vm_compute. reflexivity. Qed.
+
+(* ---------- whole values, token level ---------- *)
+(* w is any enumeration of a value (sets in any member order, even with repetitions): reading what
+   the printer writes for it gives the canonical value it denotes, and leaves what follows untouched *)
+Theorem C12_print_read_round_trip_partial :
+  forall w rest, printable w = true -> follow_ok rest ->
+    read_tokens (pr w ++ rest) = Some (norm w, rest).
+Proof. exact read_print_tokens. Qed.
+Print Assumptions C12_print_read_round_trip_partial.
+
+(* for a canonical value: print, read, same value *)
+Theorem C12_canonical_value_reads_back_partial :
+  forall v, Canon v -> printable v = true -> read_all (pr v) = Some v.
+Proof. exact read_print_canonical. Qed.
+Print Assumptions C12_canonical_value_reads_back_partial.
+
+(* {(a: -1, 'b c': 1.5), 2, {|x| (true), ({})}, {1: {2: ()}}} listed in a non-canonical order *)
+Definition C12_example : val :=
+  VSet [VSet [VTup [([120], VSet [VTup []])]; VTup [([120], VSet [])]];
+        VTup [([97], VNum (NInt (-1))); ([98; 32; 99], VNum (NHalf 1))];
+        VSet [VTup [(n_at, VNum (NInt 1)); (n_value, VSet [VTup [(n_at, VNum (NInt 2)); (n_value, VTup [])]])]];
+        VNum (NInt 2)].
+Example C12_example_printable : printable C12_example = true /\ norm C12_example <> C12_example.
+Proof. split; [vm_compute; reflexivity | vm_compute; discriminate]. Qed.
+Example C12_example_round_trip : read_all (pr C12_example) = Some (norm C12_example).
+Proof. vm_compute. reflexivity. Qed.
+(* the full domain (with sequences) on an example: tested, not proved *)
+Example C12_example_sequences :
+  let w := VSet [varr [vstr [97; 39]; vbytes [1; 2]]; VTup [([97], vstr [98])]] in
+  printable_all w = true /\ printable w = false /\ read_all (pr w) = Some (norm w).
+Proof. vm_compute. repeat split; reflexivity. Qed.
